@@ -668,6 +668,11 @@ def broadcast_and_apply(  # noqa: C901
                 stops = nplike.asarray(x.stops)
                 if not nplike.array_equal(starts[1:], stops[:-1]):
                     return False
+                if len(starts) == 0 and offsets is not None and (
+                    len(offsets) != 1 or offsets[0] != 0
+                ):
+                    # nothing to compare: the other arrays' first offset is not this one's
+                    return False
                 if offsets is None:
                     offsets = nplike.empty(len(starts) + 1, dtype=starts.dtype)
                     if len(offsets) == 1:
